@@ -7,9 +7,10 @@ COMMON_NOTE = ("Trusted: Coq 8.16.1 kernel + vm_compute; the hand-written Gallin
                "check, which is differential testing); the Python harness and oracles. Not modelled: IEEE rounding, signed zeros; "
                "numpy/pandas/dict semantics are modelled, not verified. Theorems are closed under the global context unless the evidence says otherwise.")
 P = {
- "C01": ("Theorems for ALL populations/orderings/alpha (PC01.v): finite-horizon Ville inequality for sampling without replacement, probability = count over N! orderings, "
-         "and the risk-limit bound for ALPHA (every estimator), betting (fixed bet, aGRAPA) and the SPRT with finite N, on a model shown equal entry-by-entry to a sequential spec. "
-         "Kaplan-Kolmogorov and the N=infinity (IID) cases are NOT proved: they rest on the correspondence plus exact-enumeration oracles (all N! orderings, all support^n sequences) on the implementation.",
+ "C01": ("Theorems for ALL populations/orderings/alpha (PC01.v). Finite N: finite-horizon Ville inequality for sampling without replacement, probability = count over N! orderings, "
+         "and the risk-limit bound for ALPHA (every estimator), betting (fixed bet, aGRAPA), the SPRT and Kaplan-Kolmogorov, on a model shown equal entry-by-entry to a sequential spec. "
+         "N = infinity: PARTIAL theorems (every finite-support law with rational masses, every horizon) for ALPHA, betting, SPRT, Kaplan-Markov, Kaplan-Wald; continuous laws are outside the formal statement. "
+         "Exact-enumeration oracles (all N! orderings, all support^n sequences) run on the implementation on every check.",
          "Ville inequality + supermartingale proof in Coq; differential check of NNM model vs NonnegMean; exact N!/IID enumeration oracle", "4 C01"),
  "C02": ("Theorems for all ballot profiles (PC02.v) about the assorter model; model tied to Audit.py by correspondence on generated and exhaustive small profiles; iff / range / margin oracles on the implementation.",
          "induction over card lists in Coq; differential check vs Assorter/Contest code; exact-Fraction oracle", "4 C02"),
@@ -31,7 +32,7 @@ P = {
  "C10": ("Theorems for all round histories on the Sampling model (superset, data prefix, continue = redraw, sticky confirmation) plus monotonicity of the overall p-value from the NNM model; multi-round correspondence; oracle.",
          "corollaries of the C07 theorems in Coq; multi-round differential check; round-history oracle", "4 C10"),
  "C11": ("Theorems for all non-empty samples in [0,u] no longer than N (PC11.v): ALPHA (any estimator), betting (shipped bets in range) and SPRT report rationals in [0,1], one per observation, never NaN, overall = smallest (or last) entry; proved on the Xq model where numpy's inf/NaN are explicit. "
-         "Kaplan-Kolmogorov/Markov/Wald well-formedness is not proved (correspondence + exhaustive small-domain oracle only).",
+         "Kaplan-Kolmogorov (finite N), Kaplan-Markov and Kaplan-Wald are proved too (random_order true: smallest entry; false: last entry).",
          "refinement of the numpy-style model to a sequential spec + well-formedness proof in Coq; differential check incl. exhaustive small samples; range/NaN oracle", "4 C11"),
  "C12": ("Theorems (PC12.v): reported terms equal the sequential spec; product definitions while all null means are inside (0,u); p=0 / p=1 boundary clauses; ALPHA = betting for eta = mu(1+lam(u-mu)); conversions inverse. Kaplan products are checked by the exact-Fraction oracle and correspondence only.",
          "field identities and refinement proof in Coq; differential check; exact re-derivation oracle of every history from the published products", "4 C12"),
